@@ -366,7 +366,7 @@ pub fn fault_events(seed: u64, thorough: bool, dir: &str) -> Vec<Value> {
         // every declared dimension moved on its own, by little and by a lot, in both directions
         for (mat, key) in [("P", "m"), ("P", "n"), ("A", "m"), ("A", "n")] {
             let cur = v[mat][key].as_u64().unwrap();
-            for nv in [cur + 1, cur + 2, cur + 4, cur + 1000].into_iter().chain(if cur > 0 { vec![cur - 1, 0] } else { vec![] }) {
+            for nv in [cur + 1, cur + 2, cur + 4, cur + 1000, 1u64 << 40, 1u64 << 63, u64::MAX].into_iter().chain(if cur > 0 { vec![cur - 1, 0] } else { vec![] }) {
                 if nv == cur { continue; }
                 sem(&format!("{}.{} {} -> {}", mat, key, cur, nv), "any", &|x| { x[mat][key] = json!(nv); });
             }
@@ -509,7 +509,7 @@ pub fn roundtrip_events(seed: u64, count: usize, dir: &str) -> (Vec<Value>, Vec<
         let mut s = gen::random_settings(&mut rng, p.is_symmetric());
         if let Some(m) = s.as_object_mut() {
             m.remove("max_iter");
-            if rng.gen::<f64>() < 0.4 { m.insert("time_limit".into(), json!([0.5, 1e3, 1e-9, 3.25e7][rng.gen_range(0..4)])); }
+            if rng.gen::<f64>() < 0.4 { m.insert("time_limit".into(), json!([0.5, 1e3, 1e-9, 3.25e7, 0.0][rng.gen_range(0..5)])); }
         }
         p.settings = s;
         // generalized power cones whose exponents sum to one only up to rounding (the constructor's own tolerance)
